@@ -311,3 +311,59 @@ func wide(kind string, n int) val {
 	}
 	return vMap(ks, es)
 }
+
+// ---------------------------------------------------------------------------
+// member-name kinds
+
+// nameSpellings are member-name spellings that collide with JSON syntax when
+// written bare, or that need escaping, plus plain ones.
+var nameSpellings = []string{
+	"true", "false", "null", "nil", "1", "-1", "-0", "1e3", "0.5", "NaN", "Infinity", "", "a", ":a", ":true", ":", "json:null", "True",
+	"a\"b", "a\\b", "\"a\"", "\n", "\x00", "<", "{", "[1]", " ", "\u00e9", "\u2028", "\U0001f600", "\x80",
+}
+
+// nameKinds: a sorted-map accepts exactly strings and symbols as keys
+// (anything else is "unhashable type"); symbols come quoted ('a) or bare
+// (true, false, :keyword, or any symbol an embedder constructs).
+var nameKinds = []func(string) mkey{keyStr, keySym, keyBare}
+
+func allNames() []mkey {
+	var out []mkey
+	for _, s := range nameSpellings {
+		for _, k := range nameKinds {
+			out = append(out, k(s))
+		}
+	}
+	return out
+}
+
+// wrap places m at a nesting position: 0 top level, 1 in a vector, 2 as a
+// member value of a map, 3 three levels down (list in map in vector).
+func wrap(m val, pos int) val {
+	switch pos {
+	case 1:
+		return vVec(m)
+	case 2:
+		return vMap([]mkey{keyStr("o")}, []val{m})
+	case 3:
+		return vVec(vMap([]mkey{keyBare("true")}, []val{vList(vInt(0), m)}))
+	}
+	return m
+}
+
+// perms4 are the 24 orders of 0..3.
+func perms4() [][]int {
+	var out [][]int
+	for a := 0; a < 4; a++ {
+		for b := 0; b < 4; b++ {
+			for c := 0; c < 4; c++ {
+				for d := 0; d < 4; d++ {
+					if a != b && a != c && a != d && b != c && b != d && c != d {
+						out = append(out, []int{a, b, c, d})
+					}
+				}
+			}
+		}
+	}
+	return out
+}
